@@ -354,6 +354,30 @@ pub fn bnd_c18() {
             if let Ok((a, b)) = r { if a != b { rep.found(&input, "a style attribute changed the output although document CSS is not enabled"); } }
         }
     }}
+    // the zero-height idiom hides like display:none; each half alone, a non-zero height, or a later display value does not
+    {
+        let body_hidden = "<p>keep1</p><p class=\"h\">gone</p><ul><li>keep2</li><li class=\"h\">gone2 <a href=\"u\">l</a></li></ul><table><tr class=\"h\"><td>gone3</td></tr><tr><td>keep3</td></tr></table>";
+        let body_deleted = "<p>keep1</p><ul><li>keep2</li></ul><table><tr><td>keep3</td></tr></table>";
+        for (sheet, hides) in [(".h{height:0;overflow:hidden;}", true), (".h{max-height:0;overflow-y:hidden;}", true), (".h{height:0px;overflow:hidden;}", true), (".h{overflow:hidden;height:0;}", true),
+                               (".h{max-height:0;overflow:hidden;}", true), (".h{height:0;overflow-y:hidden;}", true), (".h{display:block;display:none;}", true),
+                               (".h{height:0;}", false), (".h{overflow:hidden;}", false), (".h{height:5px;overflow:hidden;}", false), (".h{height:0;overflow:visible;}", false),
+                               (".h{display:block;}", false), (".h{display:none;display:block;}", false), (".h{height:auto;overflow:hidden;}", false), (".x{display:none;}", false)] {
+            for width in [20usize, 60] {
+                let input = format!("width={} css={} html={}", width, sheet, body_hidden);
+                rep.case(&input);
+                let (h1, d1) = (body_hidden.to_string(), (if hides { body_deleted } else { body_hidden }).to_string());
+                let r = panic::catch_unwind(move || {
+                    let a = config::rich().add_css(sheet).unwrap().lines_from_read(h1.as_bytes(), width).map(|l| lines_dbg(&l)).map_err(|e| format!("{:?}", e));
+                    let b = config::rich().lines_from_read(d1.as_bytes(), width).map(|l| lines_dbg(&l)).map_err(|e| format!("{:?}", e));
+                    (a, b)
+                });
+                match r {
+                    Err(_) => rep.found(&input, "panic"),
+                    Ok((a, b)) => if a != b { rep.found(&input, &format!("expected the elements of class h to be {}: {:?} vs {:?}", if hides { "hidden" } else { "rendered" }, a, b)); },
+                }
+            }
+        }
+    }
     // the same rule given as a document style sheet (in the head, at the start and in the middle of the body), with document CSS enabled
     for place in 0..3 { for width in [20usize, 60] {
         let sheet = "<style>.h{display:none;}</style>";
